@@ -71,6 +71,85 @@ def execute(specs, model, bres, chk, stream='whole-file', want_live_desc=False):
     return runs
 
 
+def rewrite_runs(prop, tier, model, bres, chk, n_quick, n_thorough, stream='rewrite', kinds=None):
+    """write a specification, then change the identity of objects through the public setters (new unique name,
+    or another origin reference) and write the same DLISFile again: -> Runs of the *second* file against the changed
+    specification, for the property's oracles.  Objects with a same-named sibling in their set are left alone
+    (copy numbers after a rename are a known C14 finding), channels too (their names key the data)."""
+    import pickle
+    R = rng(prop, stream)
+    n = n_quick if tier == 'quick' else n_thorough
+    tmp = tempfile.mkdtemp(prefix='verif_rw_')
+    runs = []
+    try:
+        for i in range(n):
+            spec = filegen.gen_spec(R, n_lf=R.choice([1, 1, 2]), small=(i % 2 == 0), with_index=False, kinds=kinds)
+            spec['write'].update({'data_kind': 'inline', 'from_idx': 0, 'to_idx': None, 'input_chunk_size': None,
+                                  'output_chunk_size': 2**20})
+            spec['hc'] = False
+            st0, b = call(filegen.build, spec)
+            if st0 != 'ok':
+                chk.count(f'{stream}:build-{b}')
+                continue
+            p1 = f'{tmp}/w1.dlis'
+            s1, e1 = call(b.df.write, p1, output_chunk_size=2**20)
+            if s1 != 'ok':
+                chk.count(f'{stream}:first-write-{e1}')
+                continue
+            mutated = pickle.loads(pickle.dumps(spec))
+            muts = []
+            for li, lf in enumerate(spec['lfs']):
+                objs = lf['objects']
+                origins = [o for o in objs if o['kind'] == 'origin']
+                for oi, o in enumerate(objs):
+                    if o['kind'] in ('channel', 'origin'):
+                        continue
+                    same = sum(1 for o2 in objs if (o2['kind'], o2.get('set_name'), o2['name']) ==
+                               (o['kind'], o.get('set_name'), o['name']))
+                    if same > 1:
+                        continue
+                    k = R.random()
+                    weight = 0.7 if o['kind'] in ('frame', 'no_format') else 0.25
+                    if k < weight * 0.6:
+                        newname = (o['name'][:200] + '-R' + str(oi))
+                        b.handles[li][oi].name = newname
+                        mutated['lfs'][li]['objects'][oi]['name'] = newname
+                        muts.append(f'logical file {li} object #{oi} ({o["kind"]}).name = {newname!r}')
+                    elif k < weight:
+                        newref = R.choice([9, 130, 20000])
+                        b.handles[li][oi].origin_reference = newref
+                        mutated['lfs'][li]['objects'][oi]['origin_reference'] = newref
+                        muts.append(f'logical file {li} object #{oi} ({o["kind"]}).origin_reference = {newref}')
+            if not muts:
+                continue
+            p2 = f'{tmp}/w2.dlis'
+            s2, e2 = call(b.df.write, p2, output_chunk_size=2**20)
+            r = Run()
+            r.index, r.spec = i, mutated
+            r.case = {'index': i, 'spec': describe(spec), 'after_first_write': muts, 'then': 'the same DLISFile is written again'}
+            r.res = {'status': s2, 'error': e2 if s2 != 'ok' else None, 'stage': 'second-write',
+                     'data': open(p2, 'rb').read() if s2 == 'ok' else None, 'records': [], 'flushes': [], 'built': None}
+            r.live = None
+            chk.case(stream, nontrivial_key=(stream, i), sample={'index': i, 'mutations': muts[:3], 'second_write': s2})
+            chk.count(f'{stream}:second-write-{s2}')
+            if s2 != 'ok':
+                chk.fail(f'{stream}:second-write-raises', r.case, f'writing again after renaming / re-referencing objects raises {e2}')
+                continue
+            runs.append(r)
+        if bres.ok:
+            for r, rep in zip(runs, model.ask([filegen.dump_req(r.spec, r.res['data']) for r in runs])):
+                r.dump = rep
+                r.recs = filegen.parse_dump(rep) if rep.startswith('ok') else None
+        else:
+            for r in runs:
+                r.dump, r.recs = None, None
+        for r in runs:
+            r.sim, r.exp = content.expected(r.spec)
+    finally:
+        shutil.rmtree(tmp, ignore_errors=True)
+    return runs
+
+
 def sample_of(r):
     s = r.spec
     return {'index': r.index, 'vrl': s['sul']['max_record_length'], 'logical_files': len(s['lfs']),
